@@ -320,6 +320,12 @@ class Prov:
                 t = fn.blocks[b]['term']
                 c = t['fn']
                 name = c['name'] if c['k'] == 'def' else None
+                if name and name.endswith('box_assume_init_into_vec_unsafe'):
+                    # `vec![a, b, ..]`: the literal array is written through the box pointer in the same block
+                    for si in range(len(fn.blocks[b]['stmts']) - 1, -1, -1):
+                        st = fn.blocks[b]['stmts'][si]
+                        if st['k'] == 'assign' and st['lhs']['p'] and st['lhs']['p'][0] == 'deref' and st['rv']['k'] == 'aggr' and st['rv'].get('akind') == 'array':
+                            return self.rvalue(st['rv'], b, si, depth + 1, fn.local_ty(l))
                 args = [self.operand(a, b, len(fn.blocks[b]['stmts']), depth + 1) for a in t['args']]
                 e = E('call', name, args, site=(b, -1), ty=fn.local_ty(l))
                 if c['k'] == 'def':
